@@ -14,6 +14,12 @@ L3: the property statement evaluated directly on the implementation, no Lean inv
     total (masked sum and data sum) -> every statistic and derived quantity, each one required to leave data, mask, folded flag
     and labels untouched (`check_pure`) -> entries / mask / total again; chunk spectra: statistics on every chunk spectrum, then
     chunk totals, their sum and the sum of the spectra (added as spectra) against the whole again; bootstraps likewise.
+    Every public entry point is called end to end against direct counting, with arguments whose internal order differs:
+    `Misc.bootstraps_subsample_vcf` (check_pipeline: `subsample` dictionary written in another order than `pop_ids`, unequal
+    sizes, pop_ids a subset / another order than the popinfo file and the VCF columns; sample sizes, sum of the chosen chunks of
+    the sub-sampled data, total, mask, flags per replicate; K op `bsv` = the model's composition through the generated glue),
+    `Misc.count_data_dict` (check_count_dict), `Spectrum.from_data_dict_corrected` with a zero-misidentification table
+    (check_corrected), `make_data_dict_vcf(subsample=…)` with the dictionary in its own order.
 """
 import os, math, itertools, tempfile, shutil, warnings, functools, operator, random as pyrandom
 from fractions import Fraction
@@ -1358,7 +1364,10 @@ def check_dict_dataset(chk, ctx, ds):
     dd = {}; od = {}
     for e in ds['entries']:
         v = dict(segregating=tuple(e['seg']), calls={p: tuple(c) for p, c in zip(pops, e['counts'])})
+        if e.get('calls_order'):                         # the inner dictionaries have an insertion order of their own, SNP by SNP
+            v['calls'] = {pops[i]: v['calls'][pops[i]] for i in e['calls_order']}
         if e['out'] is not None: v['outgroup_allele'] = e['out']
+        if e.get('ctx'): v['context'], v['outgroup_context'] = e['ctx']
         dd[e['key']] = v
         od[e['key']] = dict(a1=e['seg'][0] if e['seg'] else None, a2=e['seg'][1] if len(e['seg']) > 1 else None, out=e['out'], nseg=len(e['seg']),
                             counts={p: tuple(c) for p, c in zip(pops, e['counts'])})
@@ -1366,10 +1375,52 @@ def check_dict_dataset(chk, ctx, ds):
     chk.l3(('dict', len(pops), any(len(e['seg']) != 2 for e in ds['entries']), any(e['out'] is None for e in ds['entries'])))
     check_spectra(chk, ctx, ds, dd, list(od.values()), me, pops, 'dict')
     check_chunks(chk, ctx, ds, dd, me, pops, codes, 'dict')
+    check_corrected(chk, ctx, ds, dd, od, pops)
+
+def correctable(e, v):
+    """the SNPs Spectrum.from_data_dict_corrected documents as usable: biallelic with sensible alleles, the same sensible flanking
+    bases in the ingroup and outgroup context, outgroup allele one of the segregating alleles"""
+    if e.get('nseg', 2) != 2 or 'context' not in v or 'outgroup_context' not in v: return False
+    c, o = v['context'], v['outgroup_context']
+    return (c[0] == o[0] and c[2] == o[2] and c[0] in BASES and c[2] in BASES and o[1] in (e['a1'], e['a2'])
+            and e['a1'] in BASES and e['a2'] in BASES)
+
+def check_corrected(chk, ctx, ds, dd, od, pops):
+    """Spectrum.from_data_dict_corrected with a table of zero misidentification probabilities is from_data_dict of the SNPs the
+    correction applies to: against direct counting, populations in the order of pop_ids"""
+    dadi = ctx['dadi']
+    if not any('context' in v for v in dd.values()) or not hasattr(dadi.Spectrum, 'from_data_dict_corrected'): return
+    d = tempfile.mkdtemp(prefix='c13_')
+    try:
+        fux = os.path.join(d, 'fux.txt')
+        with open(fux, 'w') as f:
+            f.write('# probability of ancestral misidentification: none\n')
+            for a, b, c, u in itertools.product(BASES, repeat=4):
+                f.write('%s%s%s %s 0.0\n' % (a, b, c, u))
+        ents = [od[k] for k in dd if correctable(od[k], dd[k])]
+        for ci, cfg in enumerate(ds['params']['configs']):
+            names = [pops[p] for p in cfg['sel']]; proj = cfg['proj']; mc = cfg['mask_corners']
+            inp = dict(kind=ds['kind'], dataset=ds, at=dict(stage='corrected', config=ci))
+            try:
+                with np.errstate(all='ignore'):
+                    fs = dadi.Spectrum.from_data_dict_corrected(dd, names, proj, fux, mask_corners=mc)
+            except Exception as e:
+                chk.fail('from_data_dict_corrected:raises:%s' % type(e).__name__, 'from_data_dict_corrected raises %r' % (e,), inp); continue
+            ref, usable = oracle_spectrum(ents, names, proj, True)
+            chk.l3(('corrected', len(names), mc, usable > 0, usable < len(dd)))
+            chk.stat('corrected:usable=%s' % ('none' if usable == 0 else 'all' if usable == len(dd) else 'some'))
+            ok, err, scale = unmasked_close(fs, ref)
+            if tuple(fs.shape) != tuple(p + 1 for p in proj) or not ok or not np.array_equal(np.ma.getmaskarray(fs), expected_mask(proj, True, mc)) \
+               or (fs.pop_ids is not None and list(fs.pop_ids) != names):
+                chk.fail('from_data_dict_corrected:spectrum', 'with no ancestral misidentification the corrected spectrum (pop_ids=%r, projections=%r, mask_corners=%s) is not the sum of projections of the %d correctable SNPs: differs by %.3g (scale %.3g), pop_ids=%s'
+                         % (names, proj, mc, usable, err, scale, fs.pop_ids), inp)
+    finally:
+        shutil.rmtree(d, ignore_errors=True)
 
 def gen_dict_dataset(rng, tier, addinfo='none'):
     base = gen_dataset(rng, tier, kind='dict')
     pops = base['pops']
+    with_ctx = bool(rng.random() < 0.5)                         # flanking-base contexts (what from_data_dict_corrected needs)
     entries = []
     seen = set()
     for s in base['sites']:
@@ -1391,7 +1442,14 @@ def gen_dict_dataset(rng, tier, addinfo='none'):
         key = '%s_%d%s' % (s['chrom'], s['pos'], '.' + info if info else '')
         if (s['chrom'], s['pos']) in seen: continue           # one entry per position here; 'mixed' adds the recurrent-mutation case
         seen.add((s['chrom'], s['pos']))
-        entries.append(dict(key=key, seg=seg, out=out, counts=counts))
+        e = dict(key=key, seg=seg, out=out, counts=counts)
+        if len(pops) > 1 and rng.random() < 0.5:
+            e['calls_order'] = [int(i) for i in rng.permutation(len(pops))]
+        if with_ctx and out is not None and len(out) == 1:
+            fl = [str(rng.choice(list(BASES))) if rng.random() < 0.9 else str(rng.choice(['-', 'N'])) for _ in range(2)]
+            ofl = list(fl) if rng.random() < 0.85 else [str(rng.choice(list(BASES))), fl[1]]
+            e['ctx'] = [fl[0] + seg[0] + fl[1], ofl[0] + out + ofl[1]]
+        entries.append(e)
     if addinfo == 'mixed' and entries:
         # the documented use of additional_info: a recurrent mutation at a site that is already present without a suffix
         e = entries[int(rng.integers(len(entries)))]
@@ -1640,7 +1698,12 @@ def run(chk, ctx):
                 'samples absent from the popinfo file; shuffled sample order; repeated CHROM_POS; popinfo with/without header and comments. Rendered to VCF+popinfo and to the '
                 'SNP-file format (multi-character alleles, "-"/N outgroup, ids or no ids); hand-made dictionaries (non-biallelic entries, no outgroup key, additional_info). '
                 'Per data set 2-3 configurations (population subset/order, projections incl. full, 1, n-1; polarised or folded; corners masked or not), one chunk size from '
-                '{1,2,7,span/17,span/7,span/2,span,3*span} (at most ~60 chunks per chromosome), 1-3 bootstraps with recorded choices, one sub-sampling request with recorded draws. Complete data sets for the statistics. '
+                '{1,2,7,span/17,span/7,span/2,span,3*span} (at most ~60 chunks per chromosome), 1-3 bootstraps with recorded choices, one sub-sampling request with recorded draws '
+                '(the `subsample` dictionary written in a shuffled order; popinfo lines in an order of their own; configuration 0 lists all populations in a shuffled order half of the time). '
+                'One call of the composed entry point bootstraps_subsample_vcf per VCF and per complete data set: subsample = 1..all diploids per population with UNEQUAL sizes wherever possible, the dictionary written '
+                'in another order than pop_ids (70%), pop_ids a permutation of the populations or a proper subset of the dictionary keys, a population left out of the dictionary (15%), Nboot 1-2, own chunk size, filter, '
+                'mask_corners, polarized (see the stats pipeline:dict-order=…,sizes=…). count_data_dict for every configuration; from_data_dict_corrected (zero misidentification) on hand-made dictionaries with flanking contexts, '
+                'inner `calls` dictionaries in a per-SNP order. Complete data sets for the statistics. '
                 'Every spectrum is built with mask_corners=False and with the configured value; on both objects: clauses, then every statistic (S, Watterson_theta, theta_L, pi, Tajima_D, Zengs_E / S, Fst) '
                 'and derived quantity (sample_sizes, Npop, fold, project, marginalize) one by one with the object compared before/after, then the clauses again on the same object; chunk spectra and bootstraps likewise '
                 '(lines with allele frequency 0 or 1 and population subsets put usable SNPs into the corner entries: see the stats cfg:corner-entries, pure:corners). '
@@ -1653,6 +1716,8 @@ def run(chk, ctx):
         'the statistics theorems (C13_S, C13_pi, C13_watterson, C13_tajima, C13_fst) are stated for completely called, unprojected data; for projected / folded spectra the statistics are compared with the model numerically (K) only',
         'random choices (bootstrap chunks, sub-sampled individuals) are parameters: recorded from the real run and replayed by the model; that numpy draws without replacement is checked on the recorded draws only',
         'the chunk loop is modelled position by position (restart from chunk 0) and tied to the carried-along loop of the code by K; gz/zip inputs are not exercised',
+        'bootstraps_subsample_vcf: the glue (projections from subsample and pop_ids, forwarded arguments) is translated and proved (C13_bsv_*); the pass that threads the draws through all lines (`ddSub`, dictionary semantics for repeated keys) is tied by K (`subsample`, `bsv`), the theorems are per line (C13_bsv_line) and per replicate given per-line calls (C13_bsv_total); an empty sub-sampled dictionary (the code raises: nothing to resample) is outside the statement',
+        'Spectrum.from_data_dict_corrected is exercised numerically only (L3, zero-misidentification table = from_data_dict of the correctable SNPs); the correction formula itself is not part of C13',
         'that a statistic leaves the spectrum unchanged is proved for `S` on the statement-level model (copy vs alias of the saved mask, `C13_S_pure`) and is a syntactic scan for the other statistics (`C13_stats_read_only`); numpy masked-array aliasing itself (that `self.mask` is a view, that `self.mask = m` copies values) is validated by K (`sstate`) and by the before/after comparison on the real objects only']
     nv = 50 if tier == 'quick' else 500
     ns = 16 if tier == 'quick' else 150
